@@ -191,3 +191,17 @@ package handler
 //@   requires t != nil
 //@   ensures[C16:name-count] rtNumIn(t) - 1 != len(names) ==> result1 != nil && result0 == nil
 //@   loop 1 invariant cap(fields) == 0 || isnew(ptr(fields))
+
+// argWrapper (C15): which decoder the wrapper plugs in. Unknown fields must be
+// rejected whenever strict checking was requested (SetStrict) or the parameter
+// type declares it (a DisallowUnknownFields method on the type or on its
+// pointer) - also when params may come in array form. The array-only stub
+// ($3) decodes non-strictly and hides the target's own method from
+// Request.UnmarshalParams, so it must never be chosen when strictness applies;
+// the plain target is enough only if the target itself declares strictness.
+//@ pure declaresStrict(t Iface) Bool = rtImplements(t, strictType) || rtImplements(rtPtrTo(t), strictType)
+//@ func (*FuncInfo).argWrapper
+//@   requires fi != nil
+//@   ensures[C15:strict-not-lost-in-array-form] fi.Argument != nil && (fi.strictFields || declaresStrict(fi.Argument)) ==> !iscode(result, "(*FuncInfo).argWrapper$3")
+//@   ensures[C15:strict-when-requested] fi.Argument != nil && fi.strictFields && !declaresStrict(fi.Argument) ==> iscode(result, "(*FuncInfo).argWrapper$1") || iscode(result, "(*FuncInfo).argWrapper$2")
+//@   ensures[C15:array-when-allowed] len(fi.posNames) != 0 && fi.allowArray ==> iscode(result, "(*FuncInfo).argWrapper$1") || iscode(result, "(*FuncInfo).argWrapper$3")
